@@ -14,8 +14,7 @@ import Asn1cModel.Spec.ModuleAst
     asn1fix_dereft.c   asn1f_fix_dereference_types                          → `derefFatal`
     asn1fix.c          asn1f_check_duplicate, phase 1, fatal count          → `fixerRun`, `fixerVerdict`
   The C code follows references by pointer chasing (recursion guarded by TM_RECURSION marks
-  in `asn1f_fetch_tags_impl`, by a depth limit with a FATAL diagnostic in `_asn1f_compare_tags`,
-  which sets no marks of its own any more).  The
+  in some places, by a depth limit with a FATAL diagnostic in `_asn1f_compare_tags`).  The
   model follows them with fuel; "fuel exhausted" is a distinguished outcome (`none` / `.loop`)
   that poisons the result — `fixerVerdict` reports it as reject, as the C code does when its
   depth limit is reached — so that `Dom_C11` can say "the model never ran out of fuel" (true
@@ -173,11 +172,36 @@ def comps (M : Module) (root : List Comp) (hasExt : Bool) (adds : List Comp) : O
   | some fc => some (slotsOf fc.root hasExt fc.adds)
   | none => none
 
+/-- result of a tag comparison: `clash` = −1 (FATAL "has the same tag"); `cut` = somewhere
+    inside, the `if(a->_mark & TM_RECURSION) return 0;` guard answered -/
+structure CR where
+  clash : Bool
+  cut : Bool
+  deriving DecidableEq, Repr
+
+def CR.no : CR := ⟨false, false⟩
+def CR.or (x y : CR) : CR := ⟨x.clash || y.clash, x.cut || y.cut⟩
+
 /-- first clash wins (`if(ret) return ret;`), out-of-fuel poisons -/
-def anyClash : List (Option Bool) → Option Bool
-  | [] => some false
+def anyClash : List (Option CR) → Option CR
+  | [] => some CR.no
   | none :: _ => none
-  | some r :: rest => if r then some true else anyClash rest
+  | some r :: rest =>
+    if r.clash then some r
+    else
+      match anyClash rest with
+      | none => none
+      | some r' => some (r.or r')
+
+def isUntaggedRef : Ex → Bool
+  | .ty (.ref none _) => true
+  | _ => false
+
+/-- `asn1f_fetch_outmost_tag` on an expression that may carry the TM_RECURSION mark set by
+    `_asn1f_compare_tags`: `asn1f_fetch_tags_impl` refuses to follow a marked reference
+    (`if(expr->_mark & TM_RECURSION) return -1;`) -/
+def fetchMarked (M : Module) (x : Ex) (marked : Bool) : Fetch :=
+  if marked && isUntaggedRef x then .fail else fetchOutmost M (fuel M) x
 
 /-- which branch of `_asn1f_compare_tags(a, b)` is taken -/
 inductive Step
@@ -189,17 +213,16 @@ inductive Step
   | followA (n : String)
   /-- `ra && a->expr_type == ASN_CONSTR_CHOICE` -/
   | choiceA (r : List Comp) (h : Bool) (ad : List Comp)
-  /-- `rb && (b->meta_type == AMT_TYPEREF || b->expr_type == ASN_CONSTR_CHOICE)` -/
-  | swap
-  /-- the final `return 0;` -/
-  | done
+  /-- `rb && b->expr_type == ASN_CONSTR_CHOICE` -/
+  | swapChoice
+  /-- the last branch: TM_RECURSION guard, mark, swap -/
+  | swapMark
 
-/-- the test on b, reached when none of the tests on a applied -/
+/-- the tests on b, reached when none of the tests on a applied -/
 def classifyB (rb : Fetch) (b : Ex) : Step :=
   match rb, b with
-  | .fail, .ty (.constr _ .choice _ _ _) => .swap
-  | .fail, .ty (.ref _ _) => .swap
-  | _, _ => .done
+  | .fail, .ty (.constr _ .choice _ _ _) => .swapChoice
+  | _, _ => .swapMark
 
 /-- the tests on a, reached when a has no outermost tag (`ra != 0`) -/
 def classifyA (a : Ex) (rb : Fetch) (b : Ex) : Step :=
@@ -208,16 +231,17 @@ def classifyA (a : Ex) (rb : Fetch) (b : Ex) : Step :=
   | .ty (.constr _ .choice r h ad) => .choiceA r h ad
   | _ => classifyB rb b
 
-/-- the chain of `if`s at the head of `_asn1f_compare_tags` -/
-def classify (M : Module) (a b : Ex) : Step :=
-  match fetchOutmost M (fuel M) a with
+/-- the chain of `if`s at the head of `_asn1f_compare_tags`; `ma`/`mb`: a/b currently carry
+    TM_RECURSION -/
+def classify (M : Module) (a : Ex) (ma : Bool) (b : Ex) (mb : Bool) : Step :=
+  match fetchMarked M a ma with
   | .loop => .loop
   | .fail =>
-    match fetchOutmost M (fuel M) b with
+    match fetchMarked M b mb with
     | .loop => .loop
     | rb => classifyA a rb b
   | .tag x =>
-    match fetchOutmost M (fuel M) b with
+    match fetchMarked M b mb with
     | .loop => .loop
     | .tag y => .both x y
     | .fail => classifyB .fail b
@@ -225,56 +249,60 @@ def classify (M : Module) (a b : Ex) : Step :=
 /-- `_asn1f_compare_tags(a, b)`.
     Both outermost tags known → compare (class, value).  Otherwise, if a has no outermost
     tag: a reference is looked up and followed (missing symbol → 0), a CHOICE is iterated
-    over its members (first clash returns).  Otherwise, if b is a reference or a CHOICE
-    without outermost tag: swap.  Otherwise 0.
-    (No TM_RECURSION marks are set.  On a cyclic look-through graph the C function stops at
-    depth 1000 with FATAL "the type is defined through itself" and −1; the model's `none`.) -/
-def compareTags (M : Module) : Nat → Ex → Ex → Option Bool
-  | 0, _, _ => none
-  | f + 1, a, b =>
-    match classify M a b with
+    over its members (first clash returns).  Otherwise, if b is a CHOICE without tag: swap.
+    Otherwise: if a or b is marked return 0, else mark both and swap.
+    (The marks live on the expression nodes; an expression reached by following a reference or
+    by iterating a CHOICE is a different node, hence unmarked — true as long as the
+    look-through graph is acyclic.  On a cyclic graph the C function stops at depth 1000 with
+    FATAL "the type is defined through itself" and −1; the model's `none`.) -/
+def compareTags (M : Module) : Nat → Ex → Bool → Ex → Bool → Option CR
+  | 0, _, _, _, _ => none
+  | f + 1, a, ma, b, mb =>
+    match classify M a ma b mb with
     | .loop => none
-    | .both x y => some (x == y)
+    | .both x y => some ⟨x == y, false⟩
     | .followA n =>
       match M.lookup n with
-      | none => some false
-      | some t' => compareTags M f (.ty t') b
+      | none => some CR.no
+      | some t' => compareTags M f (.ty t') false b mb
     | .choiceA r h ad =>
       match comps M r h ad with
       | none => none
-      | some ss => anyClash (ss.map (fun s => compareTags M f s.ex b))
-    | .swap => compareTags M f b a
-    | .done => some false
+      | some ss => anyClash (ss.map (fun s => compareTags M f s.ex false b mb))
+    | .swapChoice => compareTags M f b mb a ma
+    | .swapMark =>
+      if ma || mb then some ⟨false, true⟩
+      else compareTags M f b true a true
 
 /-- no short cut (`r_value = -1` and continue), out-of-fuel poisons -/
-def orAllB : List (Option Bool) → Option Bool
-  | [] => some false
+def orAll : List (Option CR) → Option CR
+  | [] => some CR.no
   | x :: rest =>
-    match x, orAllB rest with
-    | some a, some b => some (a || b)
+    match x, orAll rest with
+    | some a, some b => some (a.or b)
     | _, _ => none
 
 /-- inner loop of `asn1f_check_constr_tags_distinct`: v against the following members; in a
     SEQUENCE stop after the first member without OPTIONAL/DEFAULT -/
-def checkRun (M : Module) (isSeq : Bool) (v : Slot) : List Slot → Option Bool
-  | [] => some false
+def checkRun (M : Module) (isSeq : Bool) (v : Slot) : List Slot → Option CR
+  | [] => some CR.no
   | nv :: rest =>
-    match compareTags M (fuel M) v.ex nv.ex with
+    match compareTags M (fuel M) v.ex false nv.ex false with
     | none => none
     | some c =>
       if isSeq && !nv.opt then some c
       else
         match checkRun M isSeq v rest with
         | none => none
-        | some r => some (c || r)
+        | some r => some (c.or r)
 
 /-- outer loop: SET/CHOICE every member, SEQUENCE every OPTIONAL/DEFAULT member -/
-def checkDistinct (M : Module) (isSeq : Bool) : List Slot → Option Bool
-  | [] => some false
+def checkDistinct (M : Module) (isSeq : Bool) : List Slot → Option CR
+  | [] => some CR.no
   | v :: rest =>
-    match (if !isSeq || v.opt then checkRun M isSeq v rest else some false),
+    match (if !isSeq || v.opt then checkRun M isSeq v rest else some CR.no),
           checkDistinct M isSeq rest with
-    | some c, some r => some (c || r)
+    | some c, some r => some (c.or r)
     | _, _ => none
 
 /-- `asn1f_check_unique_expr`: a child whose identifier equals that of a preceding child
@@ -285,58 +313,39 @@ def dupNames : List String → List String → Bool
 
 /-! ### asn1f_fix_enum -/
 
-/-- the numbers the items carry explicitly (`ev->value` as parsed) -/
-def explicitOf : List EnumItem → List Nat
-  | [] => []
-  | it :: rest => match it.val with
-    | some v => v :: explicitOf rest
-    | none => explicitOf rest
-
-/-- `while(_asn1f_enum_root_has_value(expr, eval)) eval++;` — `seen`: the values the items of the
-    root carry at this moment.  The C loop has no bound; it ends after at most one step per
-    element of `seen` (fuel `seen.length + 1` in `enumStep`). -/
-def skipSeen (seen : List Nat) : Nat → Nat → Nat
-  | 0, c => c
-  | f + 1, c => if c ∈ seen then skipSeen seen f (c + 1) else c
-
 structure EnumSt where
-  /-- `next_value` -/
+  /-- `max_value + 1` -/
   next : Nat
   /-- `max_value_ext + 1` -/
   nextExt : Nat
   used : List Nat
   names : List String
-  /-- the values the items of the root walked over so far carry (given or assigned) -/
-  rootDone : List Nat
 
-/-- one iteration of the item loop; `after` = the marker has been seen; `pend` = the items
-    of the root that follow (they carry only their explicit numbers yet; `[]` after the marker).
+/-- one iteration of the item loop; `after` = the marker has been seen.
     Returns new state, the value of the item, FATAL? -/
-def enumStep (after : Bool) (st : EnumSt) (it : EnumItem) (pend : List EnumItem) : EnumSt × Nat × Bool :=
-  let seen := st.rootDone ++ explicitOf pend
+def enumStep (after : Bool) (st : EnumSt) (it : EnumItem) : EnumSt × Nat × Bool :=
   let eval := match it.val with
     | some v => v
-    | none => skipSeen seen (seen.length + 1) (if after then st.nextExt else st.next)
+    | none => st.next                      -- eval = max_value + 1  (F15)
   let f1 := after && eval < st.nextExt    -- "is not greater than previous values"
   let nextExt := if after && st.nextExt ≤ eval then eval + 1 else st.nextExt
-  let next := if !after && it.val.isNone then eval + 1 else st.next
+  let next := if st.next ≤ eval then eval + 1 else st.next
   let f2 := st.used.contains eval         -- "collides with previous values"
   let used := if f2 then st.used else st.used ++ [eval]
   let f3 := st.names.contains it.name     -- asn1f_check_unique_expr_child
-  (⟨next, nextExt, used, st.names ++ [it.name], if after then st.rootDone else st.rootDone ++ [eval]⟩,
-   eval, f1 || f2 || f3)
+  (⟨next, nextExt, used, st.names ++ [it.name]⟩, eval, f1 || f2 || f3)
 
 def enumLoop (after : Bool) : EnumSt → List EnumItem → EnumSt × List Nat × Bool
   | st, [] => (st, [], false)
   | st, it :: rest =>
-    match enumStep after st it (if after then [] else rest) with
+    match enumStep after st it with
     | (st1, v, f) =>
       match enumLoop after st1 rest with
       | (st2, vs, fr) => (st2, v :: vs, f || fr)
 
 /-- `asn1f_fix_enum`: values given to the items (root ++ additions) and FATAL? -/
 def fixEnum (root adds : List EnumItem) : List Nat × Bool :=
-  match enumLoop false ⟨0, 0, [], [], []⟩ root with
+  match enumLoop false ⟨0, 0, [], []⟩ root with
   | (st1, vs1, f1) =>
     match enumLoop true st1 adds with
     | (_, vs2, f2) => (vs1 ++ vs2, f1 || f2)
@@ -352,17 +361,28 @@ def derefFatal (M : Module) (t : Ty) : Option Bool :=
   | _ => some false
 
 /-- the checks of the property's catalogue on one type expression -/
-def nodeFatal (M : Module) : Ty → Option Bool
-  | .ref g n => derefFatal M (.ref g n)
-  | .enum _ r _ a => some (fixEnum r a).2
+def nodeFatal (M : Module) : Ty → Option CR
+  | .ref g n =>
+    match derefFatal M (.ref g n) with
+    | none => none
+    | some f => some ⟨f, false⟩
+  | .enum _ r _ a => some ⟨(fixEnum r a).2, false⟩
   | .constr _ k r h a =>
     match comps M r h a with
     | none => none
     | some ss =>
       match checkDistinct M (k == .sequence) ss with
       | none => none
-      | some c => some (dupNames [] ((r ++ a).map Comp.name) || c)
-  | _ => some false
+      | some c => some ⟨dupNames [] ((r ++ a).map Comp.name) || c.clash, c.cut⟩
+  | _ => some CR.no
+
+/-- no short cut, out-of-fuel poisons -/
+def orAllB : List (Option Bool) → Option Bool
+  | [] => some false
+  | x :: rest =>
+    match x, orAllB rest with
+    | some a, some b => some (a || b)
+    | _, _ => none
 
 /-- the other FATALs the fixer can raise on one type expression of this algebra (outside the
     catalogue): IMPLICIT on a member that must be EXPLICIT; tagged additions with untagged
@@ -391,12 +411,13 @@ def otherFatal (M : Module) : Option Bool :=
 
 /-- rejection reasons of the catalogue: tag clash, duplicate identifier, duplicate enumeration
     item, unknown type -/
-def catalogueFatal (M : Module) : Option Bool := orAllB (M.nodes.map (nodeFatal M))
+def catalogueFatal (M : Module) : Option CR := orAll (M.nodes.map (nodeFatal M))
 
-/-- `asn1f_process` returns −1 iff some FATAL was raised; `none`: the model ran out of fuel -/
-def fixerRun (M : Module) : Option Bool :=
+/-- `asn1f_process` returns −1 iff some FATAL was raised; `none`: the model ran out of fuel;
+    `.cut`: a TM_RECURSION guard of `_asn1f_compare_tags` answered somewhere -/
+def fixerRun (M : Module) : Option CR :=
   match catalogueFatal M, otherFatal M with
-  | some a, some b => some (a || b)
+  | some a, some b => some ⟨a.clash || b, a.cut⟩
   | _, _ => none
 
 inductive Verdict | accept | reject
@@ -407,7 +428,7 @@ inductive Verdict | accept | reject
     `Dom_C11` excludes it.) -/
 def fixerVerdict (M : Module) : Verdict :=
   match fixerRun M with
-  | some false => .accept
+  | some ⟨false, _⟩ => .accept
   | _ => .reject
 
 end Asn1c.Impl.Fixer
